@@ -54,13 +54,15 @@ struct Run {
     shortcut: bool,
     early: bool,
     events: u64,
+    /// the sweep loop ended with an empty queue (reported through the after-sweep seam)
+    completed: bool,
 }
 
 fn exec(w: &C09World, op: u8, no_shortcut: bool, no_early: bool, with_handler: bool) -> Run {
     if !with_handler {
         simhooks::uninstall();
         let out = heap::with_policy(Policy::CANON, || simhooks::guarded(|| call(&w.a, &w.b, OPS[op as usize], w.pairing, w.f32_)));
-        return Run { out, shortcut: false, early: false, events: 0 };
+        return Run { out, shortcut: false, early: false, events: 0, completed: true };
     }
     let h = simhooks::handler();
     h.events.set(0);
@@ -70,8 +72,13 @@ fn exec(w: &C09World, op: u8, no_shortcut: bool, no_early: bool, with_handler: b
     h.no_early.set(no_early);
     h.shortcut_fired.set(0);
     h.early_fired.set(0);
+    h.after_sweep_seen.set(false);
+    h.remaining_after_sweep.set(0);
     let out = heap::with_policy(Policy::CANON, || simhooks::guarded(|| call(&w.a, &w.b, OPS[op as usize], w.pairing, w.f32_)));
-    Run { out, shortcut: h.shortcut_fired.get() > 0, early: h.early_fired.get() > 0, events: h.events.get() }
+    Run {
+        out, shortcut: h.shortcut_fired.get() > 0, early: h.early_fired.get() > 0, events: h.events.get(),
+        completed: h.after_sweep_seen.get() && h.remaining_after_sweep.get() == 0,
+    }
 }
 
 fn first_diff(a: &[u64], b: &[u64]) -> String {
@@ -102,6 +109,18 @@ impl C09World {
             }
         };
         log.add_bytes(&rimg.iter().flat_map(|w| w.to_le_bytes()).collect::<Vec<u8>>());
+        if !reference.completed {
+            // Both known fast paths are switched off and still the sweep did not run to completion: the code has a
+            // fast path the simulator cannot switch off, so the differential has no slow-path reference for this
+            // call. Its result is checked against the executable region model instead.
+            st.inc("observed_fast_path_the_simulator_cannot_switch_off");
+            if let Some((x, y)) = geom::model_mismatch(&self.a, &self.b, op, rres) {
+                return Some(Violation {
+                    class: "unswitchable_fast_path_changes_result".into(),
+                    detail: format!("{}: with both known fast paths switched off the sweep still did not run to completion, and the result {} is wrong at point ({}, {}) by the region model", name, geom::wkt(rres), x, y),
+                });
+            }
+        }
         let mut state = LogHash::new();
         state.add_bytes(format!("{}/{}/{}/{}/{}", name, self.pairing, self.f32_, self.tag, rimg[0] > 0).as_bytes());
         for (cfg, no_s, no_e, handler) in [("early-exit on", true, false, true), ("shortcut on", false, true, true), ("both on (shipped)", false, false, true), ("no handler installed", false, false, false)] {
@@ -117,6 +136,17 @@ impl C09World {
                 st.inc("harness_fast_path_fired_although_switched_off");
             }
             state.add((v.shortcut as u64) << 1 | v.early as u64);
+            if handler && !v.shortcut && !v.early && !v.completed && reference.completed {
+                st.inc("observed_fast_path_the_simulator_cannot_switch_off");
+                if let Outcome::Ok((_, res)) = &v.out {
+                    if let Some((x, y)) = geom::model_mismatch(&self.a, &self.b, op, res) {
+                        return Some(Violation {
+                            class: "unswitchable_fast_path_changes_result".into(),
+                            detail: format!("{} [{}]: the sweep ended early through a path the simulator does not know, and the result {} is wrong at point ({}, {}) by the region model", name, cfg, geom::wkt(res), x, y),
+                        });
+                    }
+                }
+            }
             let (img, res) = match &v.out {
                 Outcome::Ok(x) => x,
                 other => {
@@ -139,15 +169,14 @@ impl C09World {
                 st.inc("bit_comparisons");
             } else if handler {
                 st.inc("region_comparisons");
-                if geom::is_rectilinear(res) && geom::is_rectilinear(rres) {
-                    if let Some((x, y)) = geom::region_diff(res, rres) {
-                        return Some(Violation {
-                            class: "shortcut_changes_region".into(),
-                            detail: format!("{} [{}]: point ({}, {}) is in exactly one of shortcut result {} and sweep result {}", name, cfg, x, y, geom::wkt(res), geom::wkt(rres)),
-                        });
-                    }
-                } else {
-                    st.inc("observed_nonrectilinear_result_region_check_skipped");
+                if !(geom::is_rectilinear(res) && geom::is_rectilinear(rres)) {
+                    st.inc("region_comparisons_sampled_with_tolerance");
+                }
+                if let Some((x, y)) = geom::region_diff_any(res, rres) {
+                    return Some(Violation {
+                        class: "shortcut_changes_region".into(),
+                        detail: format!("{} [{}]: point ({}, {}) is in exactly one of shortcut result {} and sweep result {}", name, cfg, x, y, geom::wkt(res), geom::wkt(rres)),
+                    });
                 }
             } else {
                 // hooks inert: identical to the shipped configuration with a handler installed.
@@ -203,6 +232,37 @@ impl World for C09World {
         };
         let mut a = fam(&mut r);
         let mut b = fam(&mut r);
+        // third exact family: valid lattice polygons whose edges never meet the other operand's edges (side by
+        // side or nested): no intersection point is ever computed, vertices can be strict extremes
+        let lattice = !stars && r.chance(3, 10);
+        if lattice {
+            a = geom::gen_valid_star_operand(&mut r, g);
+            b = geom::gen_valid_star_operand(&mut r, (g / 2).max(4));
+            if r.chance(2, 5) {
+                // deliberately nested: a tiny triangle or square at a random lattice point inside `a`
+                if let Some(ba) = geom::bbox(&a) {
+                    for _ in 0..12 {
+                        let (x, y) = (r.range(ba.0 as i64, ba.2 as i64) as f64, r.range(ba.1 as i64, ba.3 as i64) as f64);
+                        let mut ring = vec![[x, y], [x + 1.0, y], [x + 1.0, y + 1.0], [x, y + 1.0]];
+                        if r.chance(2, 3) {
+                            ring.remove(r.below(4) as usize);
+                        }
+                        let k = r.below(ring.len() as u64) as usize;
+                        ring.rotate_left(k);
+                        let f = ring[0];
+                        ring.push(f);
+                        let tiny: Operand = vec![vec![ring]];
+                        if geom::contains(&a, x + 0.5, y + 0.5) && geom::edges_apart(&a, &tiny) {
+                            b = tiny;
+                            break;
+                        }
+                    }
+                }
+            }
+            if r.chance(1, 2) {
+                std::mem::swap(&mut a, &mut b); // either operand may be the enclosing one
+            }
+        }
         let sides = ["left", "right", "below", "above"];
         let kind = r.below(10);
         let tag;
@@ -248,6 +308,23 @@ impl World for C09World {
                 tag = "empty operand".to_string();
             }
         }
+        if lattice && !geom::edges_apart(&a, &b) {
+            let b0 = b.clone();
+            let mut ok = false;
+            for _ in 0..30 {
+                b = geom::translate(&b0, r.range(-g, g) as f64, r.range(-g, g) as f64);
+                if geom::edges_apart(&a, &b) {
+                    ok = true;
+                    break;
+                }
+            }
+            if !ok {
+                if let Some(ba) = geom::bbox(&a) {
+                    b = place_beyond(&b0, ba, r.below(4), 1.0, 0.0);
+                }
+            }
+        }
+        let tag = if lattice { format!("lattice non-crossing; {}", tag) } else { tag };
         // exact similarity: integer offset, power-of-two scale
         let f32_ = r.chance(1, 4);
         let (dx, dy) = if f32_ || r.chance(1, 2) { (r.range(-40, 40) as f64, r.range(-40, 40) as f64) } else { (r.range(-(1 << 20), 1 << 20) as f64, r.range(-(1 << 20), 1 << 20) as f64) };
